@@ -25,6 +25,8 @@ Monitors (written against the property statements, evaluated after EVERY event):
       * every callback that reported SUCCESS: command executed at exactly one position (callback:*), and
         after the final heal every node's state contains it   restart:success-lost
       * the constructor / first tick never raise   restart:recovery-raises:<Exc>
+      * (finding D60) the reply to a command forwarded by an EARLIER run of a node is not taken as the reply
+        to a command of its current run   restart:forward-reply-of-earlier-run-matched-to-new-request
  C07  * per (voter, term) at most one destination of `response_vote` (own candidacy = vote for itself)
         across restarts   restart:vote-granted-twice-in-term (election:… when no restart in between)
       * `raftCurrentTerm` after a restart >= before, and never decreases   restart:term-moved-backwards
@@ -34,7 +36,7 @@ Monitors (written against the property statements, evaluated after EVERY event):
         adopted before   restart:older-term-append-accepted, restart:older-term-vote-granted
 
 Private attributes read: `_SyncObj__raftLog` (through sim.log_of), `_SyncObj__votedForNodeId` (coverage
-only).  Written: none.  `sim._send` is shadowed by an instance attribute for the duration of one `*_k`
+only), `_SyncObj__commandsWaitingReply` (is a request with the id of an incoming stale reply pending).  Written: none.  `sim._send` is shadowed by an instance attribute for the duration of one `*_k`
 event (kill right after the n-th send) and removed again.
 """
 import collections
@@ -111,6 +113,10 @@ class Runner(object):
         self.ckey = {}
         self.restarted_in_term = collections.defaultdict(set)   # term -> nodes restarted while in that term
         self.sends_of_event = []                       # per applied event: number of messages it handed over
+        # forwarded commands: request ids are per process and start again at 1 after a restart (finding D60)
+        self.fwd = collections.defaultdict(list)       # (requester, request_id) -> [[generation, dest, answered], ...]
+        self.reply_gen = {}                            # id(reply message) -> generation of the requester it answers
+        self.tainted = set()                           # commands whose callback got the reply of an older request
 
     # -- helpers -------------------------------------------------------------------------------------
     def close(self):
@@ -158,11 +164,13 @@ class Runner(object):
             if not self.live(e[2]) or not sim.chan[(e[1], e[2])]:
                 return False
             ctx["pre"] = self._pre_deliver(e[2])
+            self._stale_reply(e[1], e[2])
             ctx["msg"] = sim.deliver(e[1], e[2])
         elif k == "deliver_k":
             if not self.live(e[2]) or not sim.chan[(e[1], e[2])]:
                 return False
             ctx["pre"] = self._pre_deliver(e[2])
+            self._stale_reply(e[1], e[2])
             ctx["msg"] = sim.chan[(e[1], e[2])][0]
             self._killing(e[2], e[3], lambda: sim.deliver(e[1], e[2]))
         elif k == "submit":
@@ -255,6 +263,30 @@ class Runner(object):
                 sim.chan[(node, j)].extend(ms)
             self.cov["kill-at-send"] += 1
 
+    def _stale_reply(self, a, b):
+        sim = self.sim
+        m = sim.chan[(a, b)][0]
+        if m.get("type") != "apply_command_response":
+            return
+        g = self.reply_gen.get(id(m))
+        if g is None or g[1] is not m or g[0] == sim.generation[b]:
+            return
+        self.cov["reply-to-request-of-earlier-run-delivered"] += 1
+        cb = sim.P(b, "commandsWaitingReply").get(m["request_id"])
+        if cb is None:
+            return
+        cid = (getattr(cb, "__defaults__", None) or (None,))[0]
+        x = None
+        for ev in sim.trace:
+            if ev[0] == "submit" and ev[4] == cid:
+                x = ev[2]
+        self.tainted.add(x)
+        self.flag("restart:forward-reply-of-earlier-run-matched-to-new-request",
+                  "node %s (run %d) forwarded a command as request %r to %s, was killed and restarted, and forwarded command %r under "
+                  "the same request id (ids start at 1 in every run); %s's reply to the OLD request (%s) is taken as the reply to %r"
+                  % (b, g[0], m["request_id"], a, x, a,
+                     ("error %r" % m["error"]) if "error" in m else ("accepted at index %r" % m.get("log_idx")), x))
+
     def _pre_deliver(self, b):
         o = self.sim.objs[b]
         lg = self.sim.P(b, "raftLog")
@@ -275,6 +307,10 @@ class Runner(object):
         if self.before[i]["voted"] not in (None, i) and sim.leader() is None:
             self.cov["kill:voter-after-grant-election-open"] += 1
         sim.kill(i)
+        for fs in self.fwd.values():
+            for f in fs:
+                if f[1] == i:
+                    f[2] = True                  # never answered any more
         self.fresh.pop(i, None)
         self.cov["kill"] += 1
         if not sim.objs:
@@ -333,6 +369,14 @@ class Runner(object):
                 self._vote(s, m["term"], d)
             elif t == "request_vote":
                 self._vote(s, m["term"], s)
+            elif t == "apply_command" and "request_id" in m:
+                self.fwd[(s, m["request_id"])].append([sim.generation[s], d, False])
+            elif t == "apply_command_response":
+                for f in self.fwd.get((d, m["request_id"]), []):
+                    if f[1] == s and not f[2]:          # the oldest unanswered request d sent to s under this id
+                        f[2] = True
+                        self.reply_gen[id(m)] = (f[0], m)
+                        break
         self.n_sent = len(sim.sent)
 
     def _vote(self, voter, term, dest):
@@ -364,6 +408,8 @@ class Runner(object):
                     v = {"signature": "restart:two-leaders-in-term",
                          "what": v["what"] + " (nodes restarted during that term: %s)" % sorted(self.restarted_in_term[t[0]])}
             if any(("node %s " % w) in v["what"] for w in self.wedged) and v["signature"].startswith("sm-safety:state"):
+                continue
+            if v["signature"].startswith("callback:") and any(("cmd %r " % x) in v["what"] for x in self.tainted):
                 continue
             self.flag(v["signature"], v["what"])
         # per node: terms, indices, executions, permanence
@@ -534,6 +580,8 @@ class Runner(object):
         subs = {ev[4]: ev[2] for ev in sim.trace if ev[0] == "submit"}
         for cid in sorted(succ):
             x = subs.get(cid)
+            if x in self.tainted:
+                continue
             self.cov["success-callbacks-checked"] += 1
             for i in self.V:
                 if i in self.wedged:
@@ -925,6 +973,8 @@ def summarize(r, label, spec, events=None):
 def _work(args):
     repo, item, base_seed, deadline, tmp = args
     res = []
+    if time.time() > deadline and item[0] != "corpus":
+        return [{"label": "deadline", "cov": {"deadline-cut": 1}, "violations": [], "n_events": 0, "hash": None}]
     os.makedirs(tmp, exist_ok=True)
     try:
         if item[0] == "random":
@@ -986,22 +1036,22 @@ def plan(ctx):
         fam("vote", 4, False, 5, 1, VOTE, 3)
         fam("replication", 3, True, 8, 1, ALL, 6)
         fam("conflict", 3, True, 8, 1, ALL, 6)
-        fam("vote", 5, False, 0, 1, VOTE, 6)
-        fam("replication", 5, False, 0, 3, ALL, 6)
-        fam("snapshot", 3, False, 0, 2, ALL, 4)
+        fam("vote", 5, False, 0, 2, VOTE, 6)
+        fam("replication", 5, False, 0, 4, ALL, 6)
+        fam("snapshot", 3, False, 0, 3, ALL, 4)
     else:
         fam("replication", 3, True, 4, 1, ALL, 8)
         fam("replication", 2, False, 3, 1, ALL, 2)
         fam("snapshot", 3, True, 4, 1, ALL, 6)
         fam("conflict", 3, False, 4, 1, ALL, 6)
         fam("vote", 3, True, 3, 1, VOTE)
-        fam("replication", 5, True, 0, 2, ALL, 8)
-        fam("replication", 4, False, 0, 2, ALL, 6)
-        fam("snapshot", 3, False, 0, 1, ALL, 6)
-        fam("snapshot", 5, True, 0, 3, ALL, 6)
-        fam("conflict", 5, True, 0, 2, ALL, 8)
+        fam("replication", 5, True, 0, 4, ALL, 6)
+        fam("replication", 4, False, 0, 3, ALL, 6)
+        fam("snapshot", 3, False, 0, 2, ALL, 4)
+        fam("snapshot", 5, True, 0, 5, ALL, 4)
+        fam("conflict", 5, True, 0, 4, ALL, 6)
         fam("vote", 5, False, 0, 4, VOTE, 2)
-    n_random = ctx.scale(48, 1600)
+    n_random = ctx.scale(48, 1000)
     n_events = ctx.scale(260, 420)
     for k in range(n_random):
         items.append(("random", k, n_events))
@@ -1011,7 +1061,7 @@ def plan(ctx):
 def run(ctx):
     t0 = time.time()
     items = plan(ctx)
-    budget = ctx.scale(17.0, 330.0)
+    budget = ctx.scale(17.0, 270.0)
     deadline = t0 + budget
     root = ctx.tmpdir()
     # long directed items first, random ones fill the remaining time
